@@ -134,7 +134,7 @@ class C10(Prop):
                    "the dense Holstein Hamiltonian is taken from Mpo(model).todense() (C16 checks it against the physics)"]
 
     def budget(self, tier):
-        return dict(examples=480, shards=16) if tier == "quick" else dict(examples=8000, shards=16)
+        return dict(examples=480, shards=16) if tier == "quick" else dict(examples=16000, shards=16)
 
     def strategy(self, tier):
         return cases(tier)
